@@ -19,7 +19,7 @@ REQUIRED = ['core/connection_impl.py:ConnectionImpl.create_object', 'core/connec
 
 def plan(tier, seed):
     if tier == 'quick':
-        return [{'n': 9, 'len': [60, 700]} for _ in range(16)]
+        return [{'n': 30, 'len': [60, 700]} for _ in range(16)]
     return [{'n': 150, 'len': [60, 2000]} for _ in range(64)]
 
 
